@@ -1,0 +1,37 @@
+//go:build verif
+// +build verif
+
+// Machine-checked contracts for package code (comment-only; read by /verif/govc).
+
+package code
+
+// C04: the encoders of bounded opcode fields are partial; their callers must
+// establish that the value fits (and report a compile error otherwise).  With
+// the precondition the panic in the body is unreachable.
+//@ func KIndexFromInt
+//@   prop C04
+//@   arith int
+//@   conversions lossless
+//@   requires 0 <= i && i <= 65535
+//@   modifies nothing
+//@   ensures result0 == i
+
+//@ func Index8FromInt
+//@   prop C04
+//@   arith int
+//@   conversions lossless
+//@   requires 0 <= n && n <= 255
+//@   modifies nothing
+//@   ensures result0 == n
+
+//@ func LoadEtcLookup
+//@   prop C04
+//@   arith int
+//@   requires 0 <= i && i <= 255
+//@   modifies nothing
+
+//@ func FillTable
+//@   prop C04
+//@   arith int
+//@   requires 0 <= i && i <= 255
+//@   modifies nothing
